@@ -143,7 +143,10 @@ impl TypeDependencyGraph {
         }
 
         output.push_str("\n🏗️  Discovered Types:\n");
-        for (type_name, struct_info) in &self.resolved_types {
+        // sorted: the text must not depend on the iteration order of the maps and sets
+        let mut resolved: Vec<(&String, &StructInfo)> = self.resolved_types.iter().collect();
+        resolved.sort_by_key(|(type_name, _)| *type_name);
+        for (type_name, struct_info) in resolved {
             let type_kind = if struct_info.is_enum {
                 "enum"
             } else {
@@ -160,7 +163,8 @@ impl TypeDependencyGraph {
             // Show dependencies
             if let Some(deps) = self.dependencies.get(type_name) {
                 if !deps.is_empty() {
-                    let deps_list: Vec<String> = deps.iter().cloned().collect();
+                    let deps_list: Vec<String> =
+                        Self::sorted_names(deps).into_iter().cloned().collect();
                     output.push_str(&format!("  └─ depends on: {}\n", deps_list.join(", ")));
                 }
             }
@@ -168,7 +172,9 @@ impl TypeDependencyGraph {
 
         // Show dependency chains
         output.push_str("\n🔗 Dependency Chains:\n");
-        for type_name in self.resolved_types.keys() {
+        let mut type_names: Vec<&String> = self.resolved_types.keys().collect();
+        type_names.sort();
+        for type_name in type_names {
             self.show_dependency_chain(type_name, &mut output, 0);
         }
 
@@ -188,7 +194,7 @@ impl TypeDependencyGraph {
         output.push_str(&format!("{}├─ {}\n", indent_str, type_name));
 
         if let Some(deps) = self.dependencies.get(type_name) {
-            for dep in deps {
+            for dep in Self::sorted_names(deps) {
                 if indent < 3 {
                     // Prevent too deep recursion in visualization
                     self.show_dependency_chain(dep, output, indent + 1);
@@ -214,7 +220,9 @@ impl TypeDependencyGraph {
         }
 
         // Add type nodes
-        for type_name in self.resolved_types.keys() {
+        let mut type_names: Vec<&String> = self.resolved_types.keys().collect();
+        type_names.sort();
+        for type_name in type_names {
             output.push_str(&format!("  \"{}\" [color=green];\n", type_name));
         }
 
@@ -237,8 +245,10 @@ impl TypeDependencyGraph {
         }
 
         // Add type dependency edges
-        for (type_name, deps) in &self.dependencies {
-            for dep in deps {
+        let mut dependents: Vec<(&String, &HashSet<String>)> = self.dependencies.iter().collect();
+        dependents.sort_by_key(|(type_name, _)| *type_name);
+        for (type_name, deps) in dependents {
+            for dep in Self::sorted_names(deps) {
                 output.push_str(&format!("  \"{}\" -> \"{}\";\n", type_name, dep));
             }
         }
